@@ -34,12 +34,64 @@ type cpool struct {
 	remote  func(h, unit string)                                              // apply a replicated record (DistributedAllocator only)
 	extra   func(live map[string]string, add func(kind, site, detail string)) // further query APIs
 	stats   func() (allocated, total int)                                     // the pool's own allocated/total figures
-	unknown int                                                               // subscribers whose final state the harness cannot read back (no lookup API + concurrent release)
+	// pools with a persistence format: snapshot = save (MarshalJSON), load the bytes into a FRESH object and
+	// verify the loaded object on its own (see verifyLoaded); tick/renew = epoch advance / lease renewal
+	snapshot func() []string
+	tick     func()
+	renew    func(h string)
+	unknown  int // subscribers whose final state the harness cannot read back (no lookup API + concurrent release)
 }
 
 var bg = context.Background()
 
 func mac(h string) net.HardwareAddr { return macOf(h) }
+
+// knownSubs: every subscriber name the scenarios use.
+var knownSubs = []string{"a", "b", "c", "z0", "z1", "z2", "z3", "z4", "z5", "z6", "z7"}
+
+// verifyLoaded judges an object that was loaded from a snapshot, by itself (a snapshot taken while other
+// threads run may legitimately be from before or after their operations, but it must be SOME consistent state):
+// the subscribers it says hold something hold distinct units of the pool; new subscribers are never handed a
+// unit one of them holds; and when the old subscribers ask again afterwards nobody ends up sharing a unit.
+func verifyLoaded(usable []string, lookup func(string) (string, bool), alloc func(string) string) []string {
+	var out []string
+	ok := map[string]bool{}
+	for _, u := range usable {
+		ok[u] = true
+	}
+	owner := map[string]string{}
+	for _, s := range knownSubs {
+		if v, held := lookup(s); held {
+			if !ok[v] {
+				out = append(out, fmt.Sprintf("loaded snapshot: %s holds %s, not a unit of the pool", s, v))
+			}
+			if o, dup := owner[v]; dup {
+				out = append(out, fmt.Sprintf("loaded snapshot: %s and %s both hold %s", o, s, v))
+			}
+			owner[v] = s
+		}
+	}
+	for k := 0; k < len(usable)+2; k++ {
+		id := fmt.Sprintf("y%d", k)
+		v := alloc(id)
+		if v == "" {
+			break
+		}
+		if o, dup := owner[v]; dup {
+			out = append(out, fmt.Sprintf("loaded snapshot: new subscriber %s was assigned %s, which %s holds", id, v, o))
+		}
+		owner[v] = id
+	}
+	for _, s := range knownSubs {
+		if v := alloc(s); v != "" {
+			if o, dup := owner[v]; dup && o != s {
+				out = append(out, fmt.Sprintf("loaded snapshot: %s asked again and holds %s, which %s was assigned from the same loaded state", s, v, o))
+			}
+			owner[v] = s
+		}
+	}
+	return out
+}
 
 func mkBitmap(network string, unit int) func() *cpool {
 	return func() *cpool {
@@ -58,6 +110,27 @@ func mkBitmap(network string, unit int) func() *cpool {
 			},
 			release: func(h string) { a.Release(h) },
 			stats:   func() (int, int) { al, tot, _ := a.Stats(); return int(al), int(tot) },
+			snapshot: func() []string {
+				data, err := json.Marshal(a)
+				if err != nil {
+					return []string{"MarshalJSON: " + err.Error()}
+				}
+				n := &allocator.IPAllocator{}
+				if err := json.Unmarshal(data, n); err != nil {
+					return []string{"snapshot written by MarshalJSON is rejected by UnmarshalJSON: " + err.Error()}
+				}
+				return verifyLoaded(us, func(h string) (string, bool) {
+					if p := n.Lookup(h); p != nil {
+						return p.String(), true
+					}
+					return "", false
+				}, func(h string) string {
+					if p, err := n.Allocate(h); err == nil {
+						return p.String()
+					}
+					return ""
+				})
+			},
 			lookup: func(h string) (string, bool) {
 				p := a.Lookup(h)
 				if p == nil {
@@ -102,6 +175,29 @@ func mkEpoch(network string) func() *cpool {
 			},
 			release: func(h string) { a.Release(bg, h) },
 			stats:   func() (int, int) { al, tot, _ := a.Stats(); return int(al), int(tot) },
+			tick:    func() { a.AdvanceEpoch() },
+			renew:   func(h string) { a.Renew(bg, h) },
+			snapshot: func() []string {
+				data, err := json.Marshal(a)
+				if err != nil {
+					return []string{"MarshalJSON: " + err.Error()}
+				}
+				n, _ := allocator.NewEpochBitmapAllocator(allocator.EpochBitmapConfig{BaseNetwork: network, PrefixLength: 32, GracePeriod: 1})
+				if err := json.Unmarshal(data, n); err != nil {
+					return []string{"snapshot written by MarshalJSON is rejected by UnmarshalJSON: " + err.Error()}
+				}
+				return verifyLoaded(us, func(h string) (string, bool) {
+					if ip := n.Lookup(h); ip != nil {
+						return ip.String(), true
+					}
+					return "", false
+				}, func(h string) string {
+					if ip, err := n.Allocate(bg, h); err == nil {
+						return ip.String()
+					}
+					return ""
+				})
+			},
 			lookup: func(h string) (string, bool) {
 				ip := a.Lookup(h)
 				if ip == nil {
@@ -188,6 +284,29 @@ func mkPoolAlloc(network string, unit int) func() *cpool {
 			},
 			release: func(h string) { pa.Release(bg, h) },
 			stats:   func() (int, int) { al, tot, _ := pa.Stats(); return int(al), int(tot) },
+			snapshot: func() []string {
+				data, err := json.Marshal(st)
+				if err != nil {
+					return []string{"MemoryAllocationStore.MarshalJSON: " + err.Error()}
+				}
+				n := allocator.NewMemoryAllocationStore()
+				if err := json.Unmarshal(data, n); err != nil {
+					return []string{"store snapshot rejected by UnmarshalJSON: " + err.Error()}
+				}
+				var out []string
+				recs, _ := n.GetByPool(bg, "p")
+				owner := map[string]string{}
+				for _, r := range recs {
+					if o, dup := owner[r.Prefix.String()]; dup {
+						out = append(out, fmt.Sprintf("loaded store snapshot: %s and %s both hold %s", o, r.SubscriberID, r.Prefix))
+					}
+					owner[r.Prefix.String()] = r.SubscriberID
+					if got, err := n.GetByIP(bg, r.Prefix.IP); err != nil || got.SubscriberID != r.SubscriberID {
+						out = append(out, fmt.Sprintf("loaded store snapshot: %s holds %s but the by-IP index disagrees", r.SubscriberID, r.Prefix))
+					}
+				}
+				return out
+			},
 			lookup: func(h string) (string, bool) {
 				p := pa.Lookup(h)
 				if p == nil {
@@ -284,6 +403,11 @@ func scenarios(thorough bool) []scen {
 			)
 		}
 	}
+	// persistence: a save (+ load + verification of the loaded object) concurrent with mutators
+	for _, t := range []tg{locked[0], locked[2], locked[6]} {
+		out = append(out, scen{t.name, t.mk, "M|A:b,R:a", []string{"A:a"}, [][]string{{"M"}, {"A:b", "R:a"}}})
+	}
+	out = append(out, scen{locked[2].name, locked[2].mk, "M|E,N:a", []string{"A:a", "A:b"}, [][]string{{"M"}, {"E", "N:a"}}})
 	d := locked[5]
 	out = append(out,
 		scen{d.name, d.mk, "A:a|P:b:0", nil, [][]string{{"A:a"}, {"P:b:0"}}},
@@ -303,6 +427,7 @@ type schedState struct {
 	p     *cpool
 	calls []*call
 	fill  []string
+	snap  []string // findings of snapshot verification ("M" operations)
 }
 
 func doOp(st *schedState, op string) string {
@@ -317,6 +442,18 @@ func doOp(st *schedState, op string) string {
 		var i int
 		fmt.Sscan(f[2], &i)
 		st.p.remote(f[1], st.p.usable[i])
+		return "ok"
+	case "M": // save + load into a fresh object + verify the loaded object
+		vs := st.p.snapshot()
+		st.mu.Lock()
+		st.snap = append(st.snap, vs...)
+		st.mu.Unlock()
+		return fmt.Sprint(len(vs))
+	case "E": // epoch tick
+		st.p.tick()
+		return "ok"
+	case "N": // renew
+		st.p.renew(f[1])
 		return "ok"
 	}
 	panic("bad op " + op)
@@ -394,8 +531,14 @@ func checkSched(sc scen, st *schedState, cl Clauses) []sched.Viol {
 			subs[f[1]] = true
 		}
 	}
+	for _, v := range st.snap {
+		add("duplicate", "reload", v)
+	}
 	for _, c := range st.calls {
 		f := strings.Split(c.op, ":")
+		if len(f) < 2 {
+			continue // M, E
+		}
 		subs[f[1]] = true
 		switch f[0] {
 		case "R":
@@ -569,7 +712,24 @@ func AllocVsReleaseSameSub(tr []string) bool {
 func RacePass(cl Clauses, rounds int) (int, []string) {
 	n := 0
 	var bad []string
-	for _, sc := range scenarios(true) {
+	scs := scenarios(true)
+	// free-running only: long overlapping save / mutate loops, so that every save overlaps mutations in real time
+	rep := func(ops []string, k int) []string {
+		var out []string
+		for i := 0; i < k; i++ {
+			out = append(out, ops...)
+		}
+		return out
+	}
+	for _, sc := range scenarios(false) {
+		switch sc.name {
+		case "M|A:b,R:a":
+			scs = append(scs, scen{sc.tgt, sc.mk, "race:M*|(A:b,R:b,A:c,R:c)*", sc.pre, [][]string{rep([]string{"M"}, 12), rep([]string{"A:b", "R:b", "A:c", "R:c"}, 6)}})
+		case "M|E,N:a":
+			scs = append(scs, scen{sc.tgt, sc.mk, "race:M*|(E,N:a,N:b)*", sc.pre, [][]string{rep([]string{"M"}, 12), rep([]string{"E", "N:a", "N:b"}, 8)}})
+		}
+	}
+	for _, sc := range scs {
 		for r := 0; r < rounds; r++ {
 			x := sched.RunFree(sc.scenario(cl))
 			if vs := checkSched(sc, x.Data.(*schedState), cl); len(vs) > 0 && len(bad) < 5 {
